@@ -136,6 +136,9 @@ func fnFingerprint(fn *ssa.Function) string {
 // more is given to the one function of the same package with that fingerprint whose own
 // name is not in the table (a pure rename).  Anything else stays unmatched, and the rules
 // that look for the audited name report it as missing.
+// auditedFnNames: the top-level functions of the audited tree (names of tables/fn_fingerprints.tsv).
+var auditedFnNames map[string]bool
+
 func matchRenamedFunctions(p *Prog) {
 	renamedFn = map[*ssa.Function]string{}
 	renamedRaw = map[string]string{}
@@ -145,10 +148,12 @@ func matchRenamedFunctions(p *Prog) {
 		return
 	}
 	want := map[string]string{}
+	auditedFnNames = map[string]bool{}
 	for _, line := range strings.Split(string(data), "\n") {
 		f := strings.Split(line, "\t")
 		if len(f) == 2 && !strings.HasPrefix(line, "#") {
 			want[f[0]] = f[1]
+			auditedFnNames[f[0]] = true
 		}
 	}
 	cur := map[string]*ssa.Function{}
